@@ -16,6 +16,7 @@ import OFV.Proofs.C18Pws4
 import OFV.Proofs.C18Pws5
 import OFV.Proofs.C18Binned
 import OFV.Proofs.C18Valid
+import OFV.Proofs.C18Explicit
 
 namespace OFV.C18
 open OFV.Model.C18 OFV.Spec.C18 OFV.Proofs.C18
@@ -257,5 +258,36 @@ example : tpbOk [([(0, 1)], 1), ([(0, 3)], 1), ([(0, 1), (1, 2)], 1), ([(1, 3)],
       simp only [List.mem_cons, List.not_mem_nil, or_false] at h
       rcases h with rfl | rfl | rfl | rfl <;> exact OFV.Proofs.C18Tpb.one_not_small)
     (OFV.Proofs.C18Tpb.permsCover_of_full _ 4 _ _ _ (by decide) (by decide))
+
+/-! ### explicit `num_iterations` -/
+
+/-- `binary_partition_iterator(qubit_list, num_iterations = it)`: any explicit budget with `n ≤ 2^it` (not only the
+default `⌈log₂ n⌉`) makes every yield a 2-partition and splits every pair of qubits. -/
+theorem binary_partition_explicit_spec (l : List Nat) (hnd : l.Nodup) (h2 : 2 ≤ l.length) (it : Nat)
+    (hit : l.length ≤ 2 ^ it) :
+    ∃ ys, binaryPartition l (some it) = some ys ∧ splitsAll l 2 (ys.map (fun p => [p.1, p.2])) = true :=
+  OFV.Proofs.C18Explicit.binaryPartition_explicit l hnd h2 it hit
+
+/-- `binary_partition_iterator` with a smaller explicit budget yields exactly the first yields of a larger one
+(lists of at least three qubits; a 2-qubit list always yields its single split). -/
+theorem binary_partition_prefix (l : List Nat) (h3 : 3 ≤ l.length) (k d : Nat) (hk : k ≠ 0) :
+    ∃ ys ys', binaryPartition l (some k) = some ys ∧ binaryPartition l (some (k + d)) = some ys' ∧ ys'.take k = ys := by
+  unfold binaryPartition
+  have h0 : ¬ (some k = some 0) := by intro e; injection e with e; exact hk e
+  have h0' : ¬ (some (k + d) = some 0) := by intro e; injection e with e; omega
+  have hn : ¬ l.length < 2 := by omega
+  simp only [h0, h0', if_false, hn]
+  match l, h3 with
+  | a :: b :: c :: t, _ =>
+    exact ⟨_, _, rfl, rfl, OFV.Proofs.C18Explicit.binaryLoop_take _ k d _⟩
+
+/-- `partition_iterator(qubit_list, k, num_iterations = it)`: any explicit budget `it ≥ 1` with `n ≤ 2^it` makes every
+yield a `k`-partition and splits every `k`-subset perfectly. -/
+theorem partition_iterator_explicit_spec (l : List Nat) (hnd : l.Nodup) (k : Nat) (hk1 : 1 ≤ k) (it : Nat)
+    (hit : 1 ≤ it) (hn : l.length ≤ 2 ^ it) : splitsAll l k (partitionIter l k (some it)) = true :=
+  OFV.Proofs.C18Explicit.partitionIter_explicit l hnd k hk1 it hit hn
+
+example : splitsAll [0, 1, 2, 3, 4, 5, 6] 3 (partitionIter [0, 1, 2, 3, 4, 5, 6] 3 (some 4)) = true :=
+  partition_iterator_explicit_spec _ (by decide) 3 (by decide) 4 (by decide) (by decide)
 
 end OFV.C18
